@@ -76,7 +76,20 @@ def case_strategy(draw, tier):
         for k in range(draw(st.integers(1, 4))):
             junk.append([draw(st.sampled_from(['0000_junk%d', 'zzzz_junk%d', '1718273645091827_junk%d', 'README%d'])) % k,
                          draw(st.sampled_from([b'', b'not a PEL', b'PH\x00\x30', b'\xff' * 80]))])
-    return {'pels': pels, 'query': q, 'hex': False, 'junk': junk,
+    # archived logs: a sub-directory holding PELs that answer the query too - they are not PELs of this directory
+    # (the tool works on the regular files directly in it; see C09 / C11), so they must not show up
+    archived = []
+    if draw(st.integers(0, 2)) == 0:
+        for k in range(draw(st.integers(1, 2))):
+            src = draw(st.sampled_from(pels))
+            e = draw(st.one_of(S.uint(32), st.just(q['value']) if kind == 'id' else S.uint(32)))
+            if e in eids:
+                continue
+            twin = {'ph': dict(src['ph'], eid=e), 'uh': src['uh'], 'secs': src['secs']}
+            if kind == 'bmc' and draw(st.booleans()):
+                twin['ph']['obmc'] = q['value']
+            archived.append(twin)
+    return {'pels': pels, 'query': q, 'hex': False, 'junk': junk, 'archived': archived,
             # "all directories": directory and file names that mean something to glob / the shell
             'dirname': draw(st.sampled_from(DIR_NAMES)),
             'styles': [draw(st.sampled_from(NAME_STYLES)) for _ in pels]}
@@ -120,6 +133,12 @@ def lookups(case, note):
         D.write_files(d, {nm: data for nm, data in case.get('junk', [])})
         if case.get('junk'):
             note.label('with-junk-files')
+        for k, p in enumerate(case.get('archived') or []):
+            nm = '%016d_%08X' % (1618273645091827 + k, p['ph']['eid'])
+            if any(('%08X' % q['ph']['eid']) in nm for q in pels):
+                continue
+            D.write_files(d, {'archive/' + nm: M.encode(p)})
+            note.label('with-archive-subdirectory')
         kind = q['kind']
         if kind in ('plid', 'src', 'src-exclude'):
             if kind == 'plid':
